@@ -1,5 +1,5 @@
 import PV.C02.EraseSteps
-import PV.C02.Fwd
+import PV.C09.HFwd
 /-
   PV.C09.RShiftBase — definitions and helper lemmas for `PV.C09.parseR_shift` (lean/PV/C09/RShift.lean): the map `shE k`
   that moves every range of a ranged expression `PV.C02.RExpr` by `k`, span tables related by a shift (`TabRel`), the
@@ -441,7 +441,9 @@ macro "hfin" : tactic => `(tactic| (
   | (simp_all [shE, L, R, P]; done)
   | (simp_all [shE, L, R, P]; grind [TabRel, shRg])
   | grind [shE, shL, shO, shCs, shPs, shKs, shIs, L, R, P, TabRel, shRg, shParams_empty, shParams_posonly, shParams_args,
-      shParams_vararg, shParams_kwonly, shParams_kwarg, erase_shParams, eraseParams_shPs, shPs_append]))
+      shParams_vararg, shParams_kwonly, shParams_kwarg, erase_shParams, eraseParams_shPs, shPs_append]
+  | (simp_all [shE, shParams, L, R, P]; done)
+  | (simp_all [shE, shParams, L, R, P]; grind [TabRel, shRg])))
 
 open Lean in
 /-- `hcore ih hrel fn [fields]`: the calls that were made are hypotheses `call = some v` of the context (left there by
@@ -453,11 +455,12 @@ macro "hcore" ih:ident hrel:ident h:ident fn:ident "[" fs:ident,* "]" : tactic =
   let mut round : Array (TSyntax `tactic) := #[]
   for f in fs.getElems do
     let p := mkIdent (`PV.C09.ShiftAt ++ f.getId)
-    round := round.push (← `(tactic| fwd ($p:ident ($ih _ rfl) _ _ _ $hrel)))
+    round := round.push (← `(tactic| hfwd ($p:ident ($ih _ rfl) _ _ _ $hrel)))
   let eqd := mkIdent (fn.getId ++ `eq_def)
   `(tactic| (
     all_goals try simp (config := { zetaDelta := true }) only [] at *
     all_goals try (repeat' split_match_hyp)
+    all_goals try (repeat' (split at $h:ident))
     all_goals try simp only [Option.some.injEq, Prod.mk.injEq, List.cons.injEq, Tok.op.injEq, Tok.kw.injEq, reduceCtorEq,
       false_and, and_false, true_and, and_true, ↓reduceIte] at *
     all_goals try (repeat' and_hyp)
@@ -468,7 +471,7 @@ macro "hcore" ih:ident hrel:ident h:ident fn:ident "[" fs:ident,* "]" : tactic =
     all_goals try subst_vars
     all_goals try simp only [List.length_cons] at *
     all_goals (
-      fwd @PV.C09.binOpAt_len; fwd @PV.C09.unaryOpAt_len; fwd @PV.C09.cmpOpAt_len
+      hfwd @PV.C09.binOpAt_len; hfwd @PV.C09.unaryOpAt_len; hfwd @PV.C09.cmpOpAt_len
       $[$round]*
       try simp only [List.length_cons] at *
       $[$round]*
@@ -483,5 +486,164 @@ macro "hcore" ih:ident hrel:ident h:ident fn:ident "[" fs:ident,* "]" : tactic =
       first
       | (rw [$eqd:ident]; done)
       | (rw [$eqd:ident]; (repeat' split) <;> hfin))))
+
+
+/-! ## f-string pieces, the span table of a replacement field -/
+
+theorem rexprToPiece_shift (k : Nat) (e : RExpr) : rexprToPiece (shE k e) = shPiece k (rexprToPiece e) := by
+  cases e <;> simp [rexprToPiece, shE, shPiece]
+  rename_i rg c
+  cases c <;> simp [rexprToPiece, shPiece, shE]
+
+theorem pieces_shift (k : Nat) (vs : List RExpr) :
+    (shL k vs).map rexprToPiece = (vs.map rexprToPiece).map (shPiece k) := by
+  induction vs with
+  | nil => simp
+  | cons v vs ih => simp [rexprToPiece_shift, ih]
+
+theorem dedup_shift (k : Nat) (rg : Rg) (u : Bool) : ∀ (ps : List (List Nat ⊕ RExpr)) (cur : Option (List Nat)),
+    dedupRPieces (shRg k rg) u (ps.map (shPiece k)) cur = shL k (dedupRPieces rg u ps cur)
+  | [], none => by simp [dedupRPieces]
+  | [], some c => by simp [dedupRPieces, shE]
+  | .inl s :: r, none => by
+    simp only [dedupRPieces, List.map_cons, shPiece]
+    split <;> exact dedup_shift k rg u r _
+  | .inl s :: r, some c => by
+    simp only [dedupRPieces, List.map_cons, shPiece]; exact dedup_shift k rg u r _
+  | .inr e :: r, none => by
+    simp only [dedupRPieces, List.map_cons, shPiece, shL_cons, dedup_shift k rg u r none]
+  | .inr e :: r, some c => by
+    simp only [dedupRPieces, List.map_cons, shPiece, shL_cons, dedup_shift k rg u r none, shE]
+
+/-! ### the span table of a replacement field -/
+
+theorem ulen_posIn (base k : Nat) (text : List Nat) (a : Nat) : posIn (base + k) text a = posIn base text a + k := by
+  unfold posIn; omega
+
+theorem lexSpans_shift (base k : Nat) (text : List Nat) :
+    lexSpans (base + k) text = (lexSpans base text).map (shRg k) := by
+  unfold lexSpans
+  cases lexSpansGo (text.length + 1) 0 text with
+  | none => rfl
+  | some l => simp [ulen_posIn, shRg, Function.comp_def]
+
+theorem tabOf_get (spans : List Rg) (i : Nat) (h1 : 1 ≤ i) (h2 : i ≤ spans.length) :
+    tabOf spans i = spans[spans.length - i]'(by omega) := by
+  unfold tabOf
+  have : ¬(i = 0 ∨ i > spans.length) := by omega
+  simp only [this, if_false, List.getD_eq_getElem?_getD]
+  rw [List.getElem?_eq_getElem (by omega)]
+  rfl
+
+/-- tables of span lists: shifting the list shifts the table on its range -/
+theorem tabRel_tabOf (k : Nat) (spans : List Rg) : TabRel k spans.length (tabOf spans) (tabOf (spans.map (shRg k))) := by
+  intro i h1 h2
+  rw [tabOf_get _ i h1 (by simpa using h2), tabOf_get _ i h1 h2]
+  simp
+
+/-- `lexSpansGo` runs the same loop as `PV.C11.lexGo`: one span per token -/
+theorem map_cons_len {α β} (a : α) (b : β) (x : Option (List α)) (y : Option (List β))
+    (h : x.map List.length = y.map List.length) :
+    (x.map (a :: ·)).map List.length = (y.map (b :: ·)).map List.length := by
+  cases x <;> cases y <;> simp_all
+
+theorem nl_len {α β} (x : Option (List α)) (y : Option (List β)) (h : x.map List.length = y.map List.length) :
+    (match x with | some [] => some ([] : List α) | _ => none).map List.length =
+      (match y with | some [] => some ([] : List β) | _ => none).map List.length := by
+  cases x with
+  | none => cases y <;> simp_all
+  | some l =>
+    cases y with
+    | none => simp_all
+    | some l' => cases l <;> cases l' <;> simp_all
+
+theorem lexSpansGo_length : ∀ (fuel nest : Nat) (cs : List Nat),
+    (lexSpansGo fuel nest cs).map List.length = (lexGo fuel nest cs).map List.length := by
+  intro fuel
+  induction fuel with
+  | zero => intro nest cs; simp [lexSpansGo, lexGo]
+  | succ f ih =>
+    intro nest cs
+    cases cs with
+    | nil => simp [lexSpansGo, lexGo]
+    | cons c rest =>
+      rcases rest with _ | ⟨d, r⟩
+      all_goals (
+        simp only [lexSpansGo, lexGo]
+        by_cases h1 : c = 32 ∨ c = 9 ∨ c = 12
+        · simp only [if_pos h1]; exact ih _ _
+        · simp only [if_neg h1]
+          by_cases h2 : c = 10 ∨ c = 13
+          · simp only [if_pos h2]
+            by_cases h3 : nest > 0
+            · simp only [if_pos h3]; exact ih _ _
+            · simp only [if_neg h3]
+              first
+              | (have h := ih nest []; revert h; generalize lexSpansGo f nest [] = x; generalize lexGo f nest [] = y
+                 (intro h
+                  cases x with
+                  | none => cases y <;> simp_all
+                  | some l =>
+                    cases y with
+                    | none => simp_all
+                    | some l' => cases l <;> cases l' <;> simp_all))
+              | (have h := ih nest (d :: r); revert h; generalize lexSpansGo f nest (d :: r) = x
+                 generalize lexGo f nest (d :: r) = y
+                 (intro h
+                  cases x with
+                  | none => cases y <;> simp_all
+                  | some l =>
+                    cases y with
+                    | none => simp_all
+                    | some l' => cases l <;> cases l' <;> simp_all))
+          · simp only [if_neg h2]
+            by_cases h3 : c = 35
+            · simp only [if_pos h3]; exact ih _ _
+            · simp only [if_neg h3]
+              by_cases h4 : c = 92
+              · simp only [if_pos h4]
+                first
+                | rfl
+                | (by_cases hd : d = 10
+                   · subst hd; exact ih _ _
+                   · split
+                     · rename_i heq; simp only [List.cons.injEq] at heq; exact absurd heq.1 hd
+                     · split
+                       · rename_i heq; simp only [List.cons.injEq] at heq; exact absurd heq.1 hd
+                       · rfl)
+              · simp only [if_neg h4]
+                by_cases h5 : isIdStart c = true
+                · simp only [if_pos h5]
+                  cases hl : lexString (c :: _) with
+                  | some p => obtain ⟨tk, r⟩ := p; simp only []; exact map_cons_len _ _ _ _ (ih _ _)
+                  | none =>
+                    simp only []
+                    split
+                    · rfl
+                    · exact map_cons_len _ _ _ _ (ih _ _)
+                · simp only [if_neg h5]
+                  split
+                  · cases hl : lexNumber (c :: _) with
+                    | some p => obtain ⟨tk, r⟩ := p; simp only []; exact map_cons_len _ _ _ _ (ih _ _)
+                    | none => rfl
+                  · by_cases h7 : c = 34 ∨ c = 39
+                    · simp only [if_pos h7]
+                      cases hl : lexString (c :: _) with
+                      | some p => obtain ⟨tk, r⟩ := p; simp only []; exact map_cons_len _ _ _ _ (ih _ _)
+                      | none => rfl
+                    · simp only [if_neg h7]
+                      cases hl : lexOp (c :: _) with
+                      | some p =>
+                        obtain ⟨o, r⟩ := p
+                        simp only []
+                        split
+                        · rfl
+                        · exact map_cons_len _ _ _ _ (ih _ _)
+                      | none =>
+                        simp only []
+                        split
+                        · exact map_cons_len _ _ _ _ (ih _ _)
+                        · rfl)
+
 
 end PV.C09
